@@ -488,7 +488,18 @@ var allKinds = []uint8{abs.PSA, abs.PKE, abs.PIDi, abs.PIDr, abs.PCERT, abs.PCER
 
 func AllKinds() []uint8 { return allKinds }
 
+// Payload generates one payload of the encodable domain ("every payload fits the 16-bit payload length": drawn
+// again if the reference encoding of the body does not fit).
 func Payload(r *R, kind uint8) abs.Payload {
+	for {
+		p := payload(r, kind)
+		if body, err := ref.EncodeBody(p, nil); err == nil && len(body)+4 <= 0xffff {
+			return p
+		}
+	}
+}
+
+func payload(r *R, kind uint8) abs.Payload {
 	switch kind {
 	case abs.PSA:
 		return SA(r)
